@@ -161,6 +161,13 @@ def visible : W → Bool
   | .un x => visible x
   | _ => true
 
+/-- every operand of every AND anywhere in the tree is an Operation ("a condition") -/
+def andOk : W → Bool
+  | .bin op l r => (op != .and || (l.isOperation && r.isOperation)) && andOk l && andOk r
+  | .btw x a b => andOk x && andOk a && andOk b
+  | .un x => andOk x
+  | _ => true
+
 /-- every operand of AND is an Operation (so `find_time_filter` can read `.op`) -/
 def andOperandsOps : W → Bool
   | .bin .and l r => l.isOperation && r.isOperation && andOperandsOps l && andOperandsOps r
